@@ -178,13 +178,17 @@ func builtinJSONStringify(call FunctionCall) Value {
 	if !exists {
 		return Value{}
 	}
-	valueJSON, err := json.Marshal(value)
-	if err != nil {
+	// ES5 15.12.3 Quote escapes only ", \\ and control characters: no HTML escaping.
+	marshalled := bytes.Buffer{}
+	encoder := json.NewEncoder(&marshalled)
+	encoder.SetEscapeHTML(false)
+	if err := encoder.Encode(value); err != nil {
 		panic(call.runtime.panicTypeError("JSON.stringify marshal: %s", err))
 	}
+	valueJSON := bytes.TrimSuffix(marshalled.Bytes(), []byte("\n"))
 	if ctx.gap != "" {
 		valueJSON1 := bytes.Buffer{}
-		if err = json.Indent(&valueJSON1, valueJSON, "", ctx.gap); err != nil {
+		if err := json.Indent(&valueJSON1, valueJSON, "", ctx.gap); err != nil {
 			panic(call.runtime.panicTypeError("JSON.stringify indent: %s", err))
 		}
 		valueJSON = valueJSON1.Bytes()
